@@ -76,6 +76,11 @@ def write_cases(path, geoms, calls, seed):
     n = 0
     rnd = random.Random(seed)
     with open(path, "w") as f:
+        for p in PINNED:     # first, so that the documented reproducers are always reached
+            g = dict(p)
+            g.update({"font": "", "align": 0, "seed": seed * 100003 + g["id"], "reinit": 0, "chk": 1})
+            n += len(g["calls"])
+            f.write(json.dumps(g) + "\n")
         for gid in sorted(geoms):
             g = dict(geoms[gid])
             g.pop("t")
@@ -84,11 +89,6 @@ def write_cases(path, geoms, calls, seed):
             flat = [c for s in scripts for c in s]
             n += len(flat)
             g.update({"font": "", "align": gid % 3, "seed": seed * 100003 + gid * 17, "reinit": 400, "chk": 200, "calls": flat})
-            f.write(json.dumps(g) + "\n")
-        for p in PINNED:
-            g = dict(p)
-            g.update({"font": "", "align": 0, "seed": seed * 100003 + g["id"], "reinit": 0, "chk": 1})
-            n += len(g["calls"])
             f.write(json.dumps(g) + "\n")
     return n
 
@@ -150,34 +150,36 @@ def account(ctx, name, path):
 
 
 def validate(ctx, name, path, open_devs, findings):
-    """Strict pass; mismatches that are exactly an open named deviation are reported as KNOWN-FINDING and the
-    trace is validated again with those deviations accepted.  Returns the list of genuine mismatches."""
-    env = {v: "0" for v in DEVS.values()}
+    """Strict pass first.  A mismatch that is exactly an open named deviation (diagnosis tagged Dev_<name>, name recorded in
+    known_findings.json) is reported as KNOWN-FINDING and the trace is validated again with that deviation accepted, until
+    no further open deviation shows up.  Returns the genuine mismatches of the last pass."""
     par = 6 if ctx.quick else 16
-    acc, nev, mism = ctx.validate_traces("ConsoleTrace", "ConsoleTrace", path, ("console",), env=env, name=name, timeout=1500, parallel=par)
-    bad, known = [], set()
-    for m in mism:
-        why = m["mismatch"][2]
-        tag = why[0] if why and isinstance(why[0], str) else ""
-        if tag.startswith("Dev_") and tag[4:] in open_devs:
-            known.add(tag[4:])
-        else:
-            bad.append(m)
-    if known:
-        for dv in sorted(known):
+    enabled = set()
+    while True:
+        env = {v: ("1" if k in enabled else "0") for k, v in DEVS.items()}
+        leg = name + ("+" + "+".join(sorted(enabled)) if enabled else "")
+        acc, nev, mism = ctx.validate_traces("ConsoleTrace", "ConsoleTrace", path, ("console",), env=env, name=leg, timeout=1500,
+                                             parallel=par)
+        bad, new = [], set()
+        for m in mism:
+            why = m["mismatch"][2]
+            tag = why[0] if why and isinstance(why[0], str) else ""
+            if tag.startswith("Dev_") and tag[4:] in open_devs and tag[4:] not in enabled:
+                new.add(tag[4:])
+            else:
+                bad.append(m)
+        if not new:
+            return bad
+        for dv in sorted(new):
             ctx.known_finding(findings[dv])
-        env = {v: ("1" if k in open_devs else "0") for k, v in DEVS.items()}
-        acc, nev, mism2 = ctx.validate_traces("ConsoleTrace", "ConsoleTrace", path, ("console",), env=env, name=name + "+deviations", timeout=1500,
-                                                     parallel=par)
-        bad += mism2
-    return bad
+        enabled |= new
 
 
 def report(ctx, name, bad):
     seen = set()
     for m in bad:
         why = m["mismatch"][2]
-        key = json.dumps(why[:2])
+        key = json.dumps(why[:3] if why[0] == "call did not return normally" else why[:2])
         if key in seen or len(ctx.violations) >= 6:
             continue
         seen.add(key)
